@@ -127,6 +127,14 @@ func TestC20Errno(t *testing.T) {
 		if again := auparse.AuditErrnoToNum[canon]; again != num {
 			c.fail("errno-name", name, "resolves to %d, whose canonical name %q resolves to %d", num, canon, again)
 		}
+		if canon != name {
+			// an alias: "aliases resolve to the same number" needs to know which name it is an alias of; that is
+			// errno.h knowledge, taken from the kernel header snapshot for the alias names it defines
+			if k, ok := uapi.S.Errno[name]; ok && k != num {
+				c.fail("errno-name", name, "is an alias (canonical name of %d is %q) and resolves to %d; errno.h defines it as %d (%v)", num, canon, num, k, errnoCanon(k))
+			}
+			hC20.Class("errno-alias")
+		}
 	}
 	// information only: agreement with the kernel headers
 	diff := []string{}
@@ -361,3 +369,5 @@ func TestC20Normalizations(t *testing.T) {
 		}
 	}
 }
+
+func errnoCanon(n int) string { return auparse.AuditErrnoToName[n] }
